@@ -9,7 +9,8 @@
       ∀ v, ∃ v', decodeValue (encodeValue v) = .ok v' ∧ v'.beq v
   It fails (a) for records with a reserved key (`C13_reserved_key_counterexample`, known finding
   record-reserved-key) and (b) for extension values whose TEXT form does not parse back
-  (`C13_duration_min_counterexample`, `C13_ip_v4mapped_counterexample`: root causes in C12's territory).
+  (`C13_ip_v4mapped_counterexample`, `C13_datetime_first_day_counterexample`: root causes in C12's territory;
+  `Duration(MinInt64)`, formerly a third case, has been repaired in cedar-go and now round-trips).
   The proved `_partial` theorems restrict to `v.NoReservedKeys` and `v.WF`; `WF` asks for: longs in int64
   range, sets duplicate-free and records key-sorted (what `NewSet` / `NewRecord` build), and for each extension
   leaf that `parse (print x) = x` — so the JSON layer itself is shown to add no loss.
@@ -58,10 +59,11 @@ theorem C13_reserved_key_rejected_counterexample :
     ∃ v : Value, v.WF ∧ decodeValue (encodeValue v) = .error .reject :=
   ⟨.record [("__EXTN", .record [("fn", .str "nosuch")])], by decide +kernel, isReject_eq (by decide +kernel)⟩
 
-/-- `Duration(MinInt64)` prints as "-" and is rejected by its own decoder. -/
-theorem C13_duration_min_counterexample :
-    ∃ v : Value, v.NoReservedKeys ∧ decodeValue (encodeValue v) = .error .reject :=
-  ⟨.duration minI64, by decide +kernel, isReject_eq (by decide +kernel)⟩
+-- regression (was `C13_duration_min_counterexample`: `Duration(MinInt64)` printed as "-" and was rejected by its own
+-- decoder): the value is well-formed and round-trips like every other duration
+example : (Value.duration minI64).NoReservedKeys ∧ (Value.duration minI64).WF ∧
+    decodeValue (encodeValue (.duration minI64)) = .ok (.duration minI64) :=
+  ⟨by decide +kernel, by decide +kernel, decodeValue_encodeValue _ (by decide +kernel) (by decide +kernel)⟩
 
 /-- the IPv4-mapped IPv6 address ::ffff:1.2.3.4 prints in dotted form, which `ParseIPAddr` refuses. -/
 theorem C13_ip_v4mapped_counterexample :
